@@ -106,8 +106,22 @@ class RandomStub:
 
     def choices(self, population, weights=None, *, cum_weights=None, k=1):
         """draws WITH replacement (uniform only: a weighted call is not modelled)"""
-        if weights is not None or cum_weights is not None:
-            raise UnencodableRandomness("random.choices with weights")
+        if cum_weights is not None:
+            raise UnencodableRandomness("random.choices with cum_weights")
+        if weights is not None:
+            # weighted draw(s) with replacement: candidate i with probability w_i / sum w (logged with the weights AS PASSED, so a
+            # caller can check that they are the weights of the candidates they are paired with)
+            pop, ws = list(population), list(weights)
+            if len(pop) != len(ws):
+                raise ValueError('The number of weights does not match the population')
+            if not pop:
+                raise IndexError('Cannot choose from an empty population')
+            out = []
+            for _ in range(k):
+                i = symx.ENG.choose(len(pop), 'wchoices')
+                self._log('wchoices', pop, ws, i)
+                out.append(pop[i])
+            return out
         n = len(population)
         if n == 0:
             raise IndexError('Cannot choose from an empty population')
